@@ -72,6 +72,7 @@ def digestCtl (job : Job) (cl : Cluster) (c : Ctl) : Json :=
     ("workerDs", Json.arr ((ws.flatMap (fun w => (dss.filter (fun d => c.workerDs w d != .missing)).map
         (fun d => Json.arr #[n w.host, n w.idx, n d.task, n d.out, jstatus (c.workerDs w d)]))).toArray)),
     ("remaining", n c.remaining),
+    ("published", Json.arr ((dss.filter c.published).map jds).toArray),
     ("hasComputable", toJson c.hasComputable),
     ("hasAwaitable", toJson (c.hasAwaitable job))]
 
